@@ -311,7 +311,7 @@ def run_bounded(b, repo, seed, tier):
     if b.get("fallback"):
         out["labelled"] = "bounded (fallback: function outside the verifier's subset: %s)" % b.get("reason")
     if kind == "contract_search":
-        budget = b.get("budget_s", 20)
+        budget = b.get("budget_s", 20) if tier == "quick" else b.get("thorough_budget_s", b.get("budget_s", 20) * 5)
         r = native({"mode": "search", "repo": repo, "contract_module": b["contract_module"], "target": b["target"],
                     "seed": seed, "budget_s": budget, "max_cases": b.get("max_cases", 50000), "size": b.get("size", 3)},
                    timeout=budget + 120)
